@@ -1,8 +1,10 @@
 package sym
 
 import (
+	"encoding/base64"
 	"fmt"
 	"go/types"
+	"strings"
 )
 
 type mutexGhost struct {
@@ -43,22 +45,12 @@ func (ex *Exec) wgGhost(p *Ptr) *wgGhost {
 	return g
 }
 
-// deadlock records a self-deadlock of the deterministic schedule.
-func (ex *Exec) deadlock(fr *frame, what string) {
-	ex.X.Deadlocks[what+" at "+ex.where(fr)]++
-	ex.abort("deadlock", what+" at "+ex.where(fr))
-}
-
 func init() {
 	m := models
 	lock := func(ex *Exec, fr *frame, a []Value) Value {
 		g := ex.mutexGhost(a[0].(*Ptr))
-		if g.writer || g.readers > 0 {
-			ex.runPending()
-			if g.writer || g.readers > 0 {
-				ex.deadlock(fr, "Lock of a held mutex")
-			}
-		}
+		ex.yieldPoint()
+		ex.block(func() bool { return !g.writer && g.readers == 0 }, "Lock of a held mutex")
 		g.writer = true
 		g.acquires++
 
@@ -87,12 +79,8 @@ func init() {
 	}
 	m["(*sync.RWMutex).RLock"] = func(ex *Exec, fr *frame, a []Value) Value {
 		g := ex.mutexGhost(a[0].(*Ptr))
-		if g.writer {
-			ex.runPending()
-			if g.writer {
-				ex.deadlock(fr, "RLock of a write-held mutex")
-			}
-		}
+		ex.yieldPoint()
+		ex.block(func() bool { return !g.writer }, "RLock of a write-held mutex")
 		g.readers++
 		g.acquires++
 
@@ -125,12 +113,8 @@ func init() {
 	}
 	m["(*sync.WaitGroup).Wait"] = func(ex *Exec, fr *frame, a []Value) Value {
 		g := ex.wgGhost(a[0].(*Ptr))
-		if g.n > 0 {
-			ex.runPending()
-		}
-		if g.n > 0 {
-			ex.deadlock(fr, fmt.Sprintf("WaitGroup.Wait with counter %d and no runnable goroutine", g.n))
-		}
+		ex.yieldPoint()
+		ex.block(func() bool { return g.n <= 0 }, "WaitGroup.Wait")
 		return nil
 	}
 
@@ -275,11 +259,75 @@ func init() {
 		return ex.deepEqual(fr, x.T, x.V, y.V, map[[2]*Object]bool{})
 	}
 
+	// --- encoding/base64 (StdEncoding, exact) -----------------------------------
+	m["(*encoding/base64.Encoding).EncodeToString"] = func(ex *Exec, fr *frame, a []Value) Value {
+		src := a[1].(*Slice)
+		B := ex.B
+		var in []*Term
+		for i := 0; i < src.Len; i++ {
+			in = append(in, src.Arr.V.(*ArrayV).E[src.Off+i].(*Term))
+		}
+		enc := func(six *Term) *Term { // six: 8-bit term holding a value 0..63
+			c := func(v uint64) *Term { return B.Const(8, v) }
+			lt := func(v uint64) *Term { return B.Bin(OUlt, six, c(v)) }
+			return B.Ite(lt(26), B.Bin(OAdd, six, c('A')),
+				B.Ite(lt(52), B.Bin(OAdd, six, c('a'-26)),
+					B.Ite(lt(62), B.Bin(OSub, six, c(52-'0')),
+						B.Ite(B.Eq(six, c(62)), c('+'), c('/')))))
+		}
+		shr := func(x *Term, n uint64) *Term { return B.Bin(OLShr, x, B.Const(8, n)) }
+		shl := func(x *Term, n uint64) *Term { return B.Bin(OShl, x, B.Const(8, n)) }
+		and := func(x *Term, m uint64) *Term { return B.Bin(OBAnd, x, B.Const(8, m)) }
+		or := func(x, y *Term) *Term { return B.Bin(OBOr, x, y) }
+		out := &Str{}
+		for i := 0; i < len(in); i += 3 {
+			b0 := in[i]
+			b1, b2 := B.Const(8, 0), B.Const(8, 0)
+			if i+1 < len(in) {
+				b1 = in[i+1]
+			}
+			if i+2 < len(in) {
+				b2 = in[i+2]
+			}
+			out.B = append(out.B, enc(shr(b0, 2)), enc(or(shl(and(b0, 3), 4), shr(b1, 4))))
+			if i+1 < len(in) {
+				out.B = append(out.B, enc(or(shl(and(b1, 15), 2), shr(b2, 6))))
+			} else {
+				out.B = append(out.B, B.Const(8, '='))
+			}
+			if i+2 < len(in) {
+				out.B = append(out.B, enc(and(b2, 63)))
+			} else {
+				out.B = append(out.B, B.Const(8, '='))
+			}
+		}
+		return out
+	}
+	m["(*encoding/base64.Encoding).DecodeString"] = func(ex *Exec, fr *frame, a []Value) Value {
+		s := a[1].(*Str)
+		cs, ok := s.Concrete()
+		if !ok {
+			ex.unsupported(fr, "base64 decode of symbolic text")
+		}
+		dec, err := base64.StdEncoding.DecodeString(cs)
+		if err != nil {
+			return Tuple{&Slice{Nil: true}, ex.mkError("illegal base64 data")}
+		}
+		arr := &ArrayV{E: make([]Value, len(dec))}
+		for i, b := range dec {
+			arr.E[i] = B8(ex, b)
+		}
+		obj := ex.newObject(nil, arr, "base64")
+		return Tuple{&Slice{Arr: obj, Len: len(dec), Cap: len(dec)}, &Iface{}}
+	}
+
 	// --- fmt / errors -------------------------------------------------------
-	m["fmt.Sprintf"] = func(ex *Exec, fr *frame, a []Value) Value { return ex.freshText("sprintf", false) }
-	m["fmt.Sprint"] = func(ex *Exec, fr *frame, a []Value) Value { return ex.freshText("sprint", false) }
-	m["fmt.Sprintln"] = func(ex *Exec, fr *frame, a []Value) Value { return ex.freshText("sprintln", true) }
-	m["fmt.Errorf"] = func(ex *Exec, fr *frame, a []Value) Value { return ex.mkError("fmt.Errorf(…)") }
+	m["fmt.Sprintf"] = func(ex *Exec, fr *frame, a []Value) Value { return ex.sprintf(fr, a[0].(*Str), a[1].(*Slice)) }
+	m["fmt.Sprint"] = func(ex *Exec, fr *frame, a []Value) Value { return ex.sprintArgs(fr, a[0].(*Slice), false) }
+	m["fmt.Sprintln"] = func(ex *Exec, fr *frame, a []Value) Value { return ex.sprintArgs(fr, a[0].(*Slice), true) }
+	m["fmt.Errorf"] = func(ex *Exec, fr *frame, a []Value) Value {
+		return ex.mkErrorStr(ex.sprintf(fr, a[0].(*Str), a[1].(*Slice)))
+	}
 	m["fmt.Println"] = func(ex *Exec, fr *frame, a []Value) Value { return Tuple{ex.i64(0), &Iface{}} }
 	m["fmt.Printf"] = func(ex *Exec, fr *frame, a []Value) Value { return Tuple{ex.i64(0), &Iface{}} }
 
@@ -446,4 +494,97 @@ func (ex *Exec) deepEqual(fr *frame, t types.Type, x, y Value, seen map[[2]*Obje
 	}
 	ex.unsupported(fr, fmt.Sprintf("DeepEqual on %T", x))
 	return nil
+}
+
+func B8(ex *Exec, b byte) *Term { return ex.B.Const(8, uint64(b)) }
+
+// fmtArg renders one operand of a formatting call: strings and errors
+// verbatim, constant integers in decimal, everything else as arbitrary text.
+func (ex *Exec) fmtArg(fr *frame, v Value, verb byte) *Str {
+	if i, ok := v.(*Iface); ok {
+		if i.T == nil {
+			return ex.mkStr("<nil>")
+		}
+		switch x := i.V.(type) {
+		case *Str:
+			if verb == 'q' {
+				r := &Str{B: []*Term{ex.B.Const(8, '"')}}
+				r.B = append(r.B, x.B...)
+				r.B = append(r.B, ex.B.Const(8, '"'))
+				return r
+			}
+			return x
+		case *Term:
+			if x.Op == OConst && x.W != 0 && (verb == 'd' || verb == 'v') {
+				if isSigned(i.T) {
+					return ex.mkStr(fmt.Sprintf("%d", sx(x.Val, x.W)))
+				}
+				return ex.mkStr(fmt.Sprintf("%d", x.Val))
+			}
+		}
+		// error / Stringer
+		ms := ex.P.Prog.MethodSets.MethodSet(i.T)
+		for k := 0; k < ms.Len(); k++ {
+			name := ms.At(k).Obj().Name()
+			if (name == "Error" || name == "String") && ms.At(k).Type().(*types.Signature).Params().Len() == 0 {
+				if s, ok := ex.invoke(fr, i, name).(*Str); ok {
+					return s
+				}
+			}
+		}
+	}
+	return ex.freshText("fmtarg", false).(*Str)
+}
+
+func (ex *Exec) sprintf(fr *frame, format *Str, args *Slice) *Str {
+	f, ok := format.Concrete()
+	if !ok {
+		return ex.freshText("sprintf", false).(*Str)
+	}
+	var operands []Value
+	for i := 0; i < args.Len; i++ {
+		operands = append(operands, args.Arr.V.(*ArrayV).E[args.Off+i])
+	}
+	out := &Str{}
+	k := 0
+	for i := 0; i < len(f); i++ {
+		if f[i] != '%' {
+			out.B = append(out.B, ex.B.Const(8, uint64(f[i])))
+			continue
+		}
+		j := i + 1
+		for j < len(f) && strings.IndexByte("+-# 0123456789.", f[j]) >= 0 {
+			j++
+		}
+		if j >= len(f) {
+			break
+		}
+		verb := f[j]
+		i = j
+		if verb == '%' {
+			out.B = append(out.B, ex.B.Const(8, '%'))
+			continue
+		}
+		if k >= len(operands) {
+			out.B = append(out.B, ex.mkStr("%!"+string(verb)+"(MISSING)").B...)
+			continue
+		}
+		out.B = append(out.B, ex.fmtArg(fr, operands[k], verb).B...)
+		k++
+	}
+	return out
+}
+
+func (ex *Exec) sprintArgs(fr *frame, args *Slice, ln bool) *Str {
+	out := &Str{}
+	for i := 0; i < args.Len; i++ {
+		if i > 0 && ln {
+			out.B = append(out.B, ex.B.Const(8, ' '))
+		}
+		out.B = append(out.B, ex.fmtArg(fr, args.Arr.V.(*ArrayV).E[args.Off+i], 'v').B...)
+	}
+	if ln {
+		out.B = append(out.B, ex.B.Const(8, '\n'))
+	}
+	return out
 }
